@@ -672,10 +672,33 @@ class G:
             return t
         return self.rebuild(t, path, kids)
 
+    def method_sugar_keywords(self):
+        """(.meth :a 1 #** m :k): the method-call sugar without any positional argument; optionally ending in a dangling keyword"""
+        r = self.rng
+        args = []
+        for _ in range(r.randint(1, 3)):
+            if r.random() < 0.7:
+                args += [self.K(r.choice(["a", "b", "k"])), self.atom()]
+            else:
+                args.append(self.E(self.S("unpack-mapping"), self.plainsym()))
+        if r.random() < 0.6:
+            args.append(self.K(r.choice(["a", "k", "z"])))
+        t = self.E(self.E(self.S("."), self.S("None"), self.S(r.choice(["m", "foo"]))), *args)
+        k = r.random()
+        if k < 0.25:
+            return self.L(t)
+        if k < 0.4:
+            return self.E(self.plainsym(), t)
+        if k < 0.5:
+            return self.m.Dict([self.m.Integer(1), t])
+        return t
+
     def case(self):
         """-> (stream name, tree)"""
         r = self.rng
         k = r.random()
+        if k < 0.03:
+            return "method-sugar-keywords", self.method_sugar_keywords()
         if k < 0.45:
             return "well-formed-template", self.headed(1)
         if k < 0.75:
